@@ -378,3 +378,8 @@ _run_c14 = run
 def run(rep, programs):  # noqa: F811
     _run_c14(rep, programs)
     r_locals_layout(rep, programs["core"])
+
+
+EXPLANATION = EXPLANATION + (
+    ' R-LOCALS-LAYOUT: the per-class slot arrays are placed at a running offset that advances by the size of the array just placed, so no slot belongs to two classes.'
+)
